@@ -1478,6 +1478,8 @@ pub fn run_server_history(cfg: &ScenCfg, out: &mut RunOut) {
     for (k, (name, trust, cert, key, mode, accepts)) in specs.iter().enumerate().take(nl) {
         let min13 = chance(1, 4);
         let authz = chance(1, 2);
+        // at the session limit a new valid peer is still admitted (the oldest session makes room)
+        let max_sessions = [1usize, 2, 8][choose(3) as usize];
         let tls = match TlsServerConfig::new(&fixture(trust), &fixture(cert), &fixture(key), None, if min13 { MinTlsVersion::V1_3 } else { MinTlsVersion::V1_2 }, *mode) {
             Ok(t) => t,
             Err(e) => {
@@ -1493,9 +1495,9 @@ pub fn run_server_history(cfg: &ScenCfg, out: &mut RunOut) {
         let listener = TcpListener::bind_now(addr).unwrap();
         let (handle, task) = if authz {
             let auth = Arc::new(PolicyAuth { policy: Policy::Role(ROLE_POLICY_ROLE.to_string()), journal: journal.clone() });
-            create_tls_server_task_with_authz(8, listener, map, auth, tls, AddressFilter::Any, decode)
+            create_tls_server_task_with_authz(max_sessions, listener, map, auth, tls, AddressFilter::Any, decode)
         } else {
-            create_tls_server_task(8, listener, map, tls, AddressFilter::Any, decode)
+            create_tls_server_task(max_sessions, listener, map, tls, AddressFilter::Any, decode)
         };
         tasks.push(simtokio::task::spawn_named("tls-server", task.run()));
         listeners.push(HistListener { name, addr, authz, min13, accepts, journal, mem, handle });
